@@ -369,28 +369,31 @@ func (p *Persister) flushNow(ctx context.Context, batch map[string]persistData, 
 	defer close(st.writeDone)
 	start := p.clock.Now()
 
-	tx, ctx, err := p.db.NewTransaction(ctx, true)
+	// A flush that cannot even start its transaction is a failed flush like
+	// any other: every callback must still learn that its state is not
+	// durable (the source escalates that to the pipeline) and callbacksDone
+	// must still be closed, or the acks of this batch are silently lost and
+	// WaitPendingWrites blocks for ever.
+	tx, txCtx, err := p.db.NewTransaction(ctx, true)
 	if err != nil {
-		// TODO make sure error is propagated back to the runtime and Conduit shuts down
 		p.logger.Err(ctx, err).Msg("error creating new transaction")
-		return
-	}
-
-	defer tx.Discard()
-	for id, data := range batch {
-		// assign to the outer err (do not shadow it): a failed write must
-		// fail the whole flush, so that nothing is committed and every
-		// callback learns that its state is not durable
-		err = data.storeFunc(ctx)
-		if err != nil {
-			p.logger.Err(ctx, err).
-				Str(log.ConnectorIDField, id).
-				Msg("error while saving connector")
-			break
+	} else {
+		defer tx.Discard()
+		for id, data := range batch {
+			// assign to the outer err (do not shadow it): a failed write must
+			// fail the whole flush, so that nothing is committed and every
+			// callback learns that its state is not durable
+			err = data.storeFunc(txCtx)
+			if err != nil {
+				p.logger.Err(ctx, err).
+					Str(log.ConnectorIDField, id).
+					Msg("error while saving connector")
+				break
+			}
 		}
-	}
-	if err == nil {
-		err = tx.Commit()
+		if err == nil {
+			err = tx.Commit()
+		}
 	}
 	// Track every callback this flush spawns so WaitPendingWrites can observe
 	// not just "the write landed" but "every side effect the write's callback
